@@ -68,6 +68,9 @@ def get_app(integration: str, status: str, base: str, codec: str = 'default', pr
         rpc.dispatcher.add_methods(_registry('async'))
         sub = rpc.add_endpoint(reg_prefix, **({'subapp': web.Application()} if nested else {}), **ckw)
         sub.add_methods(_registry('async', 'sub'))
+        # a second, unrelated integration object of the same process (another API version): it serves nothing here
+        decoy = integ.Application('/decoy')
+        decoy.add_endpoint(PREFIX)
 
         async def start():
             client = TestClient(TestServer(rpc.app))
@@ -96,7 +99,12 @@ def get_app(integration: str, status: str, base: str, codec: str = 'default', pr
         rpc.dispatcher.add_methods(_registry('sync'))
         sub = rpc.add_endpoint(reg_prefix, **({'blueprint': flask.Blueprint(f'bp_{len(_APPS)}', __name__)} if nested else {}), **ckw)
         sub.add_methods(_registry('sync', 'sub'))
+        # a second, unrelated extension object created BEFORE the first one is bound to the app (one object per API version + an
+        # app factory): it has no methods, so a request routed to it would be answered -32601
+        decoy = integ.JsonRPC('/decoy')
+        decoy.add_endpoint(PREFIX)
         rpc.init_app(app)
+        decoy.init_app(app)
         client = app.test_client()
 
         def post(path_kind: str, body: bytes, content_type: Optional[str]):
@@ -112,6 +120,7 @@ def get_app(integration: str, status: str, base: str, codec: str = 'default', pr
         from pjrpc.server.integration import werkzeug as integ
         rpc = integ.JsonRPC(base, **ckw)
         rpc.dispatcher.add_methods(_registry('sync'))
+        integ.JsonRPC('/decoy')      # an unrelated second object
         client = werkzeug.test.Client(rpc)
 
         def post(path_kind: str, body: bytes, content_type: Optional[str]):
